@@ -133,13 +133,13 @@ Lemma node_facts : forall h ps js v E fps fp,
 Proof.
   intros h ps js v E fps fp Hnode ND. split; [|split].
   - destruct Hnode as [(_ & -> & -> & -> & _) | (a & off & len & cap & cells & _ & _ & _ & _ & S & _)]; simpl; auto.
-  - destruct Hnode as [(_ & _ & _ & -> & _) | (a & off & len & cap & cells & _ & _ & _ & _ & _ & [(_ & -> & _) | (_ & _ & _ & _ & ->)])];
+  - destruct Hnode as [(_ & _ & _ & -> & _) | (a & off & len & cap & cells & _ & _ & _ & _ & _ & [(_ & -> & _) | (_ & _ & _ & ->)])];
       try constructor. inversion ND; auto.
-  - destruct Hnode as [(_ & _ & _ & -> & _) | (a & off & len & cap & cells & -> & Hn & Hl & -> & Hc & [(_ & -> & _) | (Hp & -> & -> & Hj & ->)])];
+  - destruct Hnode as [(_ & _ & _ & -> & _) | (a & off & len & cap & cells & -> & Hn & Hl & -> & Hc & [(_ & -> & _) | (Hp & -> & -> & ->)])];
       try (intros ? []).
     intros a0 Ha0. split; [right; auto|].
     assert (orep h ps (JArr js) (HArr a 0 len (length cells)) (a :: concat fps)).
-    { apply orep_arr. exists a, 0, len, (length cells), cells, fps. repeat split; auto. right. auto 6. }
+    { apply orep_arr. exists a, 0, len, (length cells), cells, fps. repeat split; auto; try (right; auto 6). }
     eapply orep_fp; eauto. right; auto.
 Qed.
 
@@ -213,8 +213,7 @@ Proof.
     split; [reflexivity|]. split. { unfold h', b. apply nth_error_app_last. }
     split. { lia. }
     split. { rewrite skipn_O, firstn_all. apply (reps3_splice (orep h ps)); auto. }
-    right. split. { left. auto. } split; auto. split; auto. split; auto.
-    rewrite skipn_all. constructor.
+    right. split. { left. auto. } split; auto.
   - constructor.
     + intro Hc. apply in_concat_splice in Hc; auto. apply Hcl in Hc. unfold b in Hc. lia.
     + apply NoDup_concat_splice; auto.
@@ -233,7 +232,6 @@ Qed.
 Lemma splice_inplace : forall h ps js a len cells fps ju us fu st en,
   alloc_wf ps ->
   nth_error h a = Some (OArr cells) -> len <= length cells -> In (PArr a 0) ps ->
-  Forall (eq HNull) (skipn len cells) ->
   reps3 (orep h ps) js (firstn len cells) fps -> NoDup (a :: concat fps) ->
   st <= en -> en <= len -> length us = en - st ->
   reps3 (orep h ps) ju us fu -> concat fu = [] ->
@@ -243,7 +241,7 @@ Lemma splice_inplace : forall h ps js a len cells fps ju us fu st en,
   orep h' ps (JArr (firstn st js ++ ju ++ skipn en js)) (HArr a 0 len (length cells)) fp' /\
   NoDup fp' /\ post h ps (a :: concat fps) h' ps fp'.
 Proof.
-  intros h ps js a len cells fps ju us fu st en Hwf Hn Hl Hp Hj Hrep ND Hse Hel Hus Hu Hfu cells' h' fp'.
+  intros h ps js a len cells fps ju us fu st en Hwf Hn Hl Hp Hrep ND Hse Hel Hus Hu Hfu cells' h' fp'.
   pose proof (nth_error_lt _ _ _ Hn) as Ha.
   assert (Hafps : ~ In a (concat fps)) by (inversion ND; auto).
   assert (NDc : NoDup (concat fps)) by (inversion ND; auto).
@@ -276,8 +274,7 @@ Proof.
       intros j x f Hr [Hin|Hin]; apply Hframe; auto.
       * intros a0 Ha0 Heq. subst a0. apply Hafps. eapply in_concat_of; eauto.
       * rewrite (fu_nil _ _ Hfu Hin). intros ? [].
-    + right. split; auto. split; auto. split; auto. split; auto.
-      rewrite Hc'. rewrite skipn_app_exact by auto. auto.
+    + right. split; auto.
   - constructor.
     + intro Hc. apply in_concat_splice in Hc; auto.
     + apply NoDup_concat_splice; auto.
@@ -344,10 +341,10 @@ Proof. intros. apply reps3_repeat. split; auto. Qed.
 Lemma node_alloc_cases : forall h ps js v E fps fp, arr_node h ps js v E fps fp ->
   (allocated (Some ps) v = true /\ exists a len cells, v = HArr a 0 len (length cells) /\
      nth_error h a = Some (OArr cells) /\ len <= length cells /\ E = firstn len cells /\ In (PArr a 0) ps /\
-     Forall (eq HNull) (skipn len cells) /\ fp = a :: concat fps) \/
+     fp = a :: concat fps) \/
   (allocated (Some ps) v = false).
 Proof.
-  intros h ps js v E fps fp [(-> & _) | (a & off & len & cap & cells & -> & Hn & Hl & -> & Hc & [(Hna & _) | (Hp & -> & -> & Hj & ->)])].
+  intros h ps js v E fps fp [(-> & _) | (a & off & len & cap & cells & -> & Hn & Hl & -> & Hc & [(Hna & _) | (Hp & -> & -> & ->)])].
   - right. reflexivity.
   - right. destruct (allocated (Some ps) (HArr a off len cap)) eqn:Eq; auto.
     apply allocated_arr in Eq. exfalso. apply Hna. left. eauto.
@@ -406,10 +403,10 @@ Proof.
       pose proof (reps3_markers h ps (en - st)) as Hm.
       assert (Hmc : concat (repeat (@nil nat) (en - st)) = []) by apply concat_repeat_nil.
       unfold slice_write.
-      destruct (node_alloc_cases _ _ _ _ _ _ _ Hnode) as [(Ha & a & len & cells & -> & Hna & Hl & -> & Hp & Hjk & ->) | Ha]; rewrite Ha.
+      destruct (node_alloc_cases _ _ _ _ _ _ _ Hnode) as [(Ha & a & len & cells & -> & Hna & Hl & -> & Hp & ->) | Ha]; rewrite Ha.
       + (* in place *)
         rewrite firstn_length in Hel'.
-        destruct (splice_inplace h ps js a len cells fps _ _ _ st en Hwf Hna Hl Hp Hjk Hrep ND Hse ltac:(lia)
+        destruct (splice_inplace h ps js a len cells fps _ _ _ st en Hwf Hna Hl Hp Hrep ND Hse ltac:(lia)
                     ltac:(apply repeat_length) Hm Hmc) as (R1 & R2 & R3).
         do 4 eexists. split; [|split; [exact R1|split; [exact R2|exact R3]]].
         f_equal. f_equal. f_equal. cbn [Nat.add].
@@ -430,16 +427,16 @@ Proof.
     - (* an array is spliced in *)
       apply orep_arr in Hn as (a' & off' & len' & cap' & cells' & fu & -> & Hn' & Hl' & Hcu & Hcase).
       assert (Hfu : concat fu = []).
-      { destruct Hcase as [(_ & Hc & _) | (_ & _ & _ & _ & Hc)]; [auto | discriminate]. }
+      { destruct Hcase as [(_ & Hc & _) | (_ & _ & _ & Hc)]; [auto | discriminate]. }
       set (us := firstn len' (skipn off' cells')) in *.
       assert (Hus : length us = len') by (unfold us; rewrite firstn_length, skipn_length; lia).
       unfold slice_write. cbn [hlen elems]. rewrite (cells_of_nth _ _ _ Hn'). fold us.
-      destruct (node_alloc_cases _ _ _ _ _ _ _ Hnode) as [(Ha & a & len & cells & -> & Hna & Hl & -> & Hp & Hjk & ->) | Ha]; rewrite Ha.
+      destruct (node_alloc_cases _ _ _ _ _ _ _ Hnode) as [(Ha & a & len & cells & -> & Hna & Hl & -> & Hp & ->) | Ha]; rewrite Ha.
       + destruct (Nat.eqb len' (en - st)) eqn:Q; cbn [andb].
         * (* in place *)
           apply Nat.eqb_eq in Q. rewrite firstn_length in Hel'.
           assert (Hus' : length us = en - st) by lia.
-          destruct (splice_inplace h ps js a len cells fps _ us fu st en Hwf Hna Hl Hp Hjk Hrep ND Hse ltac:(lia)
+          destruct (splice_inplace h ps js a len cells fps _ us fu st en Hwf Hna Hl Hp Hrep ND Hse ltac:(lia)
                       Hus' Hcu Hfu) as (R1 & R2 & R3).
           do 4 eexists. split; [|split; [exact R1|split; [exact R2|exact R3]]].
           f_equal. f_equal. f_equal. cbn [Nat.add].
